@@ -1,5 +1,7 @@
 """C03 - rewriter output always compiles and is a fixed point.
 
+ANCHORS: harness/c04_s2s.py (shared with C04).
+
 Correspondence (open mode): reformat_import_statements, fix_unused_and_missing_imports (all flag combinations),
 replace_star_imports, remove_broken_imports, transform_imports - complete output text and the class of the internal
 error raised vs Tidy/Fix.v fed with the captured block decomposition, renderings, analysis result, database
@@ -16,6 +18,8 @@ import tempfile
 
 from . import common as cm
 from . import c04_s2s as S
+
+ANCHORS = S.ANCHORS
 
 TMAPS = [[["pkg.sub", "newpkg.s"], ["m", "mm"]], [["os.path", "ospath2"]], [["a", "aa.bb"]], [["keyword", "kw"]]]
 
@@ -53,6 +57,14 @@ WITNESSES = [
     {"kind": "tidy", "w": "F8b", "src": "os.x; import a\na\n", "db": "import os\n", "flags": T, "params": None},
     {"kind": "transform", "w": "F36", "src": "from ab.a import x as ab\nab\n", "db": "", "flags": T, "params": None, "tmap": [["ab", "p.q"]]},
     {"kind": "tidy", "w": "F39", "src": "from a.b import os\nx = 1\nimport m\nm\nos\n", "db": "__mandatory_imports__=['import os']\n", "flags": T, "params": None},
+    {"kind": "tidy", "w": "F40", "src": "b'x'\nos\n", "db": "import os\n__mandatory_imports__=['from __future__ import division']\n", "flags": T, "params": None},
+    {"kind": "tidy", "w": "F41", "src": "from __future__ import annotations\nfrom foo import annotations\nannotations\n", "db": "", "flags": T, "params": None},
+    {"kind": "reformat", "w": "F41", "src": "from __future__ import annotations\nfrom foo import annotations\nannotations\n", "db": "", "flags": T, "params": None},
+    {"kind": "tidy", "w": "F42", "src": "import os\n'string'\nx = 1\n", "db": "", "flags": T, "params": None},
+    {"kind": "tidy", "w": "F23b", "src": "import os as x\ndef f(): import sys as x\nx.getcwd()\n", "db": "", "flags": T, "params": None},
+    {"kind": "reformat", "w": "uniform", "src": "from __future__ import division\nimport IPython\nfrom PIL import X\nimport _a\n", "db": "", "flags": T,
+     "params": {"separate_from_imports": False, "align_future": True}},
+    {"kind": "tidy", "w": "F34b", "src": "class F:\n    d.x\n    (lambda b: {f for e in d})\nimport keyword as d\n", "db": "from m import d\n", "flags": T, "params": None},
     {"kind": "tidy", "w": "F16", "src": "import os.path\nprint(os.getcwd())\n", "db": "import os\n", "flags": T, "params": None},
     {"kind": "tidy", "w": "F34", "src": "from os import sep as b\ndef f():\n    return b\nfrom os import pardir as b\nprint(f())\n", "db": "", "flags": T, "params": None},
 ]
@@ -128,48 +140,138 @@ def impl_case(c):
 
 
 # ---------------------------------------------------------------------------------------------
-# oracle and known-finding classifiers
+# oracle and known-finding classifiers.  Each classifier accepts only the failure it names (a predicate on the
+# failing case AND on what failed); everything else stays a VIOLATION.
 
-def is_F36(c, im):
-    """transform_imports with a one-component OLD and a dotted NEW: Import.replace renames an alias equal to OLD
-    (`... as p.q`) and the textual body substitution writes the dotted NEW into binding positions (parameter,
-    keyword, alias)."""
-    if c["kind"] != "transform":
+def top_imports(src):
+    """[(local name, fullname, is __future__)] of the top-level import statements (stdlib ast)."""
+    out = []
+    for st in ast.parse(src).body:
+        if isinstance(st, ast.Import):
+            for a in st.names:
+                out.append(((a.asname or a.name), a.name, False))
+        elif isinstance(st, ast.ImportFrom):
+            mod = "." * st.level + (st.module or "")
+            for a in st.names:
+                out.append(((a.asname or a.name), mod + "." + a.name, mod == "__future__"))
+    return out
+
+
+def future_features(src):
+    try:
+        return sorted({n for n, f, fut in top_imports(src) if fut})
+    except SyntaxError:
+        return None
+
+
+def second_pass_delta(im):
+    """(imports the second pass removed, imports it added), as multisets of (local name, fullname)."""
+    out, out2 = im.get("out"), (im.get("second") or {}).get("out")
+    if out is None or out2 is None:
+        return None
+    try:
+        a, b = top_imports(out), top_imports(out2)
+    except SyntaxError:
+        return None
+    rem, add = list(a), []
+    for x in b:
+        if x in rem:
+            rem.remove(x)
+        else:
+            add.append(x)
+    return rem, add
+
+
+def _reads_in_deferred_scope(src, name):
+    """is `name` read inside a function / lambda body (where the analysis may resolve it at definition time)?"""
+    tree = ast.parse(src)
+    for node in ast.walk(tree):
+        if isinstance(node, (ast.FunctionDef, ast.AsyncFunctionDef, ast.Lambda)):
+            body = node.body if isinstance(node.body, list) else [node.body]
+            for b in body:
+                for n in ast.walk(b):
+                    if isinstance(n, ast.Name) and n.id == name and isinstance(n.ctx, ast.Load):
+                        return True
+    return False
+
+
+def is_F36(c, im, clause):
+    """transform_imports with a one-component OLD and a dotted NEW: the dotted NEW is written into a binding
+    position (alias `as p.q`, parameter, keyword): the output does not compile, and it does once every NEW is
+    replaced by a plain identifier."""
+    if c["kind"] != "transform" or clause != "compiles" or im.get("out") is None:
         return False
-    return any("." not in k and "." in v for k, v in c.get("tmap", []))
+    news = [v for k, v in c.get("tmap", []) if "." not in k and "." in v]
+    if not news:
+        return False
+    out = im["out"]
+    for k, v in enumerate(news):
+        out = out.replace(v, "zz_fresh_%d" % k)
+    return _compiles(out) is None
 
 
-def is_F16(c, im):
-    """tidy removed a plain dotted import whose package name is still read (C02's finding): not a fixed point."""
-    sc = im.get("scan") or {}
-    return any("." in f and f == a for _, (f, a) in sc.get("unused", []))
+def is_F34(c, im, clause):
+    """fixed point only: the second pass only REMOVES imports, each of a name N that another top-level import of
+    the first output also binds and that is read inside a function / lambda body (the analysis resolves such a
+    read at definition time once N is bound above: DESIGN section 7 F34), and the first pass added or removed
+    an import of N (or N was bound twice already)."""
+    if c["kind"] not in ("tidy", "cli") or clause != "fixed_point":
+        return False
+    d = second_pass_delta(im)
+    if not d or d[1] or not d[0]:
+        return False
+    first = top_imports(im["out"])
+    for n, f, fut in d[0]:
+        if fut or sum(1 for n2, _, _ in first if n2.split(".")[0] == n.split(".")[0]) < 2:
+            return False
+        if not _reads_in_deferred_scope(im["out"], n.split(".")[0]):
+            return False
+    return True
 
 
-def is_F34(c, im):
-    """the analysis resolves a read inside a function / class body / lambda at definition time when the name is
-    already bound (C02's finding): adding or removing an import changes what the next pass sees."""
-    if not (im.get("adds") or (im.get("scan") or {}).get("unused")):
+def is_F39(c, im, clause):
+    """fixed point only: the second pass only removes imports, each binding the local name of a mandatory import
+    the first pass ADDED (into another block) and being a different import."""
+    if c["kind"] not in ("tidy", "cli") or clause != "fixed_point":
+        return False
+    d = second_pass_delta(im)
+    if not d or d[1] or not d[0]:
+        return False
+    added_mand = {a[0][1].split(".")[0]: a[0][0] for a in im.get("adds", []) if a[1] is None and a[2][0] == "added"}
+    for n, f, fut in d[0]:
+        root = n.split(".")[0]
+        if root not in added_mand or added_mand[root] == f:
+            return False
+    return True
+
+
+def is_F41(c, im, clause):
+    """a __future__ import and another import with the same local name in one block: ignore_shadowed drops the
+    __future__ import (`from __future__ import annotations` + `from foo import annotations`)."""
+    if clause != "future_kept":
         return False
     try:
-        tree = ast.parse(c["src"])
+        imps = top_imports(c["src"])
     except SyntaxError:
         return False
-    return any(isinstance(n, (ast.FunctionDef, ast.Lambda, ast.ClassDef)) for n in ast.walk(tree))
+    lost = set(future_features(c["src"]) or []) - set(future_features(im.get("out") or "") or [])
+    return bool(lost) and all(any(n == x and not fut for n, f, fut in imps) for x in lost)
 
 
-def is_F39(c, im):
-    """a mandatory import whose local name a DIFFERENT import of another import block already binds is added
-    anyway (add_import only looks at the chosen block): it shadows the other import, which the next pass removes."""
-    if not (c.get("flags") or {}).get("add_mandatory", True):
+def is_F42(c, im, clause):
+    """the module has no docstring and starts (after comments) with imports followed by a bare string statement;
+    every one of those imports is removed, so the string becomes the docstring."""
+    if clause != "docstring_kept" or im.get("doc_in") is not None or im.get("doc_out") is None:
         return False
-    snaps = im.get("snaps") or []
-    if len(snaps) < 2:
-        return False
-    bound = [(f, a) for b in snaps[1]["blocks"] if b["k"] == "I" for f, a in b["imports"]]
-    for mf, ma in im.get("mandatory", []):
-        if ma != "*" and any(a.split(".")[0] == ma.split(".")[0] and f != mf for f, a in bound):
-            return True
-    return False
+    body = ast.parse(c["src"]).body
+    k = 0
+    while k < len(body) and isinstance(body[k], (ast.Import, ast.ImportFrom)):
+        k += 1
+    return (0 < k < len(body) and isinstance(body[k], ast.Expr) and isinstance(body[k].value, ast.Constant)
+            and isinstance(body[k].value.value, str) and body[k].value.value == im.get("doc_out"))
+
+
+CLASSIFIERS = [("F36", is_F36), ("F39", is_F39), ("F34", is_F34), ("F41", is_F41), ("F42", is_F42)]
 
 
 def oracle(c, im):
@@ -186,6 +288,9 @@ def oracle(c, im):
         return bad
     if im.get("doc_in") != im.get("doc_out"):
         bad.append(("docstring_kept", "docstring %r became %r" % (im.get("doc_in"), im.get("doc_out"))))
+    fin, fout = future_features(c["src"]), future_features(out)
+    if fin is not None and fout is not None and not set(fin) <= set(fout):
+        bad.append(("future_kept", "__future__ features %r of the input, %r of the output" % (fin, fout)))
     sec = im.get("second") or {}
     if sec.get("exc"):
         bad.append(("fixed_point", "second pass raised %s" % sec["exc"]))
@@ -200,16 +305,12 @@ def oracle(c, im):
     return bad
 
 
-def classify_known(c, im, clause):
-    if c["kind"] == "transform" and clause in ("compiles", "fixed_point", "no_internal_error") and is_F36(c, im):
-        return "F36"
-    if c["kind"] in ("tidy", "cli") and clause == "fixed_point":
-        if is_F16(c, im):
-            return "F16"
-        if is_F39(c, im):
-            return "F39"
-        if is_F34(c, im):
-            return "F34"
+def classify_known(ctx, c, im, clause):
+    """id of the OPEN known finding whose classifier accepts this failure (a `fixed:` entry suppresses nothing)."""
+    open_ids = {e["id"] for e in ctx.open_findings()}
+    for fid, pred in CLASSIFIERS:
+        if fid in open_ids and pred(c, im, clause):
+            return fid
     return None
 
 
@@ -228,14 +329,12 @@ def check_cases(ctx, cases):
         nontriv = any(b["k"] == "I" for s in (im.get("snaps") or [])[:1] for b in s["blocks"]) or bool(im.get("adds"))
         ctx.count(c, nontriv)
         for clause, detail in oracle(c, im):
-            fid = classify_known(c, im, clause)
+            fid = classify_known(ctx, c, im, clause)
             if fid:
                 ctx.known_hit(fid, "%s: %s" % (clause, detail))
                 ctx.bump("known:" + fid)
             else:
                 ctx.violation(clause, c, detail)
-        if c["kind"] == "transform" and im.get("out") is not None and not im.get("nocompile") and is_F36(c, im):
-            pass
         if nontriv:
             ctx.sample({"kind": c["kind"], "src": c["src"], "out": im.get("out")}, limit=3)
     return ne
@@ -253,10 +352,10 @@ def run(ctx):
         "open mode (DESIGN 3.6): block decomposition (M2), ImportSet.pretty_print per import set (M4), scan_for_import_issues (M7), "
         "database answers, ModuleHandle.exports, exec of single imports, Import.replace and the re.sub body substitution are "
         "taken from the same run; the hypotheses about them are evaluated on every case",
-        "inputs contain no self-documenting f-strings and no PEP 695 syntax (F32/F33, statement splitter), and the checked tree "
-        "carries the F2/F25 fix (plain / star imports are never parenthesised)",
     ]
     ctx.notes["trusted_base"] = ["CPython's compile() as the judge of 'compiles', stdlib ast.get_docstring"]
+    cm.check_anchors(ctx, S.ANCHORS)
+    n *= getattr(ctx, "scale", 1)
     cases = cm.load_corpus("C03") + WITNESSES + gen_cases(ctx, n)
     ne = 0
     for k in range(0, len(cases), 4000):
@@ -274,5 +373,7 @@ def replay(payload):
     im = impl[0]
     print(json.dumps({"case": case,
                       "impl": {k: im.get(k) for k in ("out", "exc", "msg", "nocompile", "second", "adds", "cli")},
-                      "model": main[0], "oracle": oracle(case, im) if "__exc__" not in im else None}, indent=1))
+                      "model": main[0], "oracle": oracle(case, im) if "__exc__" not in im else None,
+                      "classified": [[cl, [fid for fid, pred in CLASSIFIERS if pred(case, im, cl)]] for cl, _ in
+                                     (oracle(case, im) if "__exc__" not in im else [])]}, indent=1))
     return 0
